@@ -305,7 +305,13 @@ func (m *mmRun) global(it item, s signRes, d []byte) {
 	if e, ok := m.seen[k]; ok {
 		m.rec.Eval(1)
 		if e.D != dh {
-			m.rec.Violation("sign-bytes-collision/cross/"+e.Kind+"~"+it.kind(),
+			sig := "sign-bytes-collision/" + it.kind() + "/any-two-items"
+			if e.Kind != it.kind() {
+				ks := []string{e.Kind, it.kind()}
+				sort.Strings(ks)
+				sig = "sign-bytes-collision/cross/" + ks[0] + "~" + ks[1]
+			}
+			m.rec.Violation(sig,
 				fmt.Sprintf("two items with different delivered calls (%s vs %s) have identical signing bytes %x", e.Kind, it.kind(), s.Bz),
 				map[string]any{"first": e.It.dump(), "second": it.dump()})
 		}
